@@ -711,6 +711,10 @@ class FnTranslator:
         return Expr(t, ty, c.binds + [(t, m)])
 
     def e_IfExp(self, node, env):
+        # a test decided by the declared types alone (isinstance of a typed attribute) selects its branch
+        sb = self.static_bool(node.test, env)
+        if sb is not None:
+            return self.expr(node.body if sb else node.orelse, env)
         c = self.truthy(self.expr(node.test, env))
         a = self.expr(node.body, env)
         b = self.expr(node.orelse, env)
@@ -1543,9 +1547,9 @@ class FnTranslator:
         attribute or variable against int / float, and all([...]) / any([...]) / and / or / not of such), else None"""
         if isinstance(node, ast.Call) and isinstance(node.func, ast.Name) and node.func.id == 'isinstance' \
                 and len(node.args) == 2 and (
-                    (isinstance(node.args[1], ast.Name) and node.args[1].id in ('int', 'float'))
+                    (isinstance(node.args[1], ast.Name) and node.args[1].id in ('int', 'float', 'str', 'list', 'tuple'))
                     or (isinstance(node.args[1], ast.Tuple) and node.args[1].elts
-                        and all(isinstance(x, ast.Name) and x.id in ('int', 'float') for x in node.args[1].elts))):
+                        and all(isinstance(x, ast.Name) and x.id in ('int', 'float', 'str', 'list', 'tuple') for x in node.args[1].elts))):
             try:
                 e = self.expr(node.args[0], env)
             except TransError:
@@ -1555,8 +1559,10 @@ class FnTranslator:
                 return 'int' in kinds
             if e.ty == Q:
                 return 'float' in kinds
+            if e.ty == S:
+                return 'str' in kinds
             if isinstance(e.ty, tuple) and e.ty and e.ty[0] in ('tuple', 'list'):
-                return False            # a tuple / list value is neither an int nor a float
+                return e.ty[0] in kinds  # a tuple / list value is neither an int, a float nor a string
             return None
         # `x is None` / `x is not None` on a value whose declared type is not optional
         if isinstance(node, ast.Compare) and len(node.ops) == 1 and isinstance(node.ops[0], (ast.Is, ast.IsNot)) \
